@@ -13,8 +13,13 @@ RULE = ("op sequences (value, error, call, is_computed, set_value, set_error, re
         "issued on the task while it is suspended (is_computed, set_value, set_error, subscribe ok/raising, guarded reads), "
         "driven by the same top-level op lists; distinct = different (kind, script, op list); "
         "non-trivial = at least one completion and at least one op after it (KSusp: the body is started by a read and "
-        "suspends at least once)")
-TRUSTED = ["qcore.events.EventHook.safe_trigger and qcore.errors.reraise are exercised, not modelled separately"]
+        "suspends at least once); plus the RE-ENTRANT SUBSCRIBER profile of both families: 2..5 on_computed subscribers "
+        "whose behaviour script (returns / raises / unsubscribes itself, the next, the previous or any other subscriber "
+        "/ subscribes a new one / a sequence of these) acts on fut.on_computed from inside the callback, 1..3 completions "
+        "(by a read, set_value, set_error, an inner set on the suspended task, a failing dependency, the body) separated "
+        "by reset_unsafe()")
+TRUSTED = ["qcore.events.EventHook subscribe/unsubscribe/safe_trigger are modelled as list append / remove-first / a loop "
+           "over a copy of the handler list (Futures.notify); qcore.errors.reraise is exercised, not modelled"]
 ASSUMPTIONS = ["callbacks raise only Exception subclasses (BaseException from a callback is outside the statement)",
                "batches and batch items are driven by C11's check; here a batch item only carries a task's suspension",
                "a computing read of a suspended task from inside its own dependency's computation (re-entrant scheduler) "
@@ -77,6 +82,85 @@ def gen_case(rng, malformed):
     return {"args": [kind, prov, o0, ops], "meta": {"malformed": malformed}}
 
 
+def _beh(rng, me, fresh, depth=0):
+    """Behaviour script of subscriber number `me` (ids are handed out 1, 2, 3, ... in subscription order, so
+    me+1 is the subscriber registered right after it, me-1 the one before); `fresh` hands out ids for
+    subscribers created from inside a callback."""
+    r = rng.random()
+    if r < 0.25:
+        return "CbOk"
+    if r < 0.35:
+        return "CbRaise"
+    if r < 0.75:
+        q = rng.random()
+        if q < 0.45:
+            t = me                                  # one-shot subscriber
+        elif q < 0.65:
+            t = me + 1                              # drops the next one (not yet notified)
+        elif q < 0.85:
+            t = me - 1                              # drops the previous one (already notified), 0 = nobody
+        else:
+            t = rng.randrange(0, me + 4)            # anybody, maybe not (or not yet) registered
+        return {"CbUnsub": [t]}
+    if r < 0.88 or depth >= 2:
+        return {"CbSub": [fresh(), _beh(rng, me, fresh, depth + 1) if rng.random() < 0.3 and depth < 2 else
+                          ("CbOk" if rng.random() < 0.7 else "CbRaise")]}
+    return {"CbSeq": [_beh(rng, me, fresh, depth + 1), _beh(rng, me, fresh, depth + 1)]}
+
+
+def _fresh_counter():
+    n = [100]
+
+    def fresh():
+        n[0] += 1
+        return n[0]
+    return fresh
+
+
+def gen_reent(rng):
+    """Plain futures with re-entrant subscribers: subscribers first, then 1..3 completions separated by
+    reset_unsafe(), reads in between."""
+    kind = rng.choice(["KLazy", "KLazy", "KLazy", "KTask", "KTask", "KPlain", "KPlain", "KConst", "KError"])
+    fresh = _fresh_counter()
+    prov = []
+    for _ in range(rng.choice([1, 2, 3, 4])):
+        r = rng.random()
+        prov.append({"PRet": [_val(rng)]} if r < 0.6 else {"PRaise": [rng.randrange(1, 60)]} if r < 0.95 else {"PBase": [rng.randrange(60, 90)]})
+    o0 = {"Ok": [_val(rng)]} if kind != "KError" else {"Err": [rng.randrange(100, 130)]}
+    ops = []
+    nsub = 0
+    for _ in range(rng.choice([2, 2, 3, 3, 4, 5])):
+        nsub += 1
+        ops.append({"OSubscribe": [nsub, _beh(rng, nsub, fresh)]})
+        if rng.random() < 0.08:
+            ops.append("OIsComputed")
+    rounds = rng.choice([1, 1, 2, 2, 3])
+    for rd in range(rounds):
+        r = rng.random()
+        setp = 0.8 if kind == "KPlain" else 0.35
+        if r < setp / 2:
+            ops.append({"OSetValue": [_val(rng)]})
+        elif r < setp:
+            ops.append({"OSetError": [rng.randrange(200, 260)]})
+        else:
+            ops.append(rng.choice(["OValue", "OError", "OCall"]))
+        for _ in range(rng.choice([0, 0, 1, 2])):
+            r = rng.random()
+            if r < 0.7:
+                ops.append(rng.choice(["OValue", "OError", "OCall", "OIsComputed"]))
+            elif r < 0.85:
+                ops.append({"OSetValue": [_val(rng)]} if rng.random() < 0.5 else {"OSetError": [rng.randrange(200, 260)]})
+            else:
+                nsub += 1
+                ops.append({"OSubscribe": [nsub, _beh(rng, nsub, fresh)]})
+        if rd < rounds - 1:
+            ops.append("OReset")
+            if rng.random() < 0.3:
+                nsub += 1
+                ops.append({"OSubscribe": [nsub, _beh(rng, nsub, fresh)]})
+    return {"args": [kind, prov, o0, ops], "meta": {"malformed": False, "reentrant": True}}
+
+
 def _cleanup(rng):
     r = rng.random()
     if r < 0.35:
@@ -88,17 +172,21 @@ def _cleanup(rng):
     return "CleanYield"
 
 
-def gen_susp(rng, malformed):
-    """Scheduled task: phases (suspensions with inner ops), final behaviour, top-level ops."""
+def gen_susp(rng, malformed, reent=False):
+    """Scheduled task: phases (suspensions with inner ops), final behaviour, top-level ops.
+    reent = the re-entrant subscriber profile: more subscribers up front, behaviour scripts from _beh."""
     nsub = [0]
+    fresh = _fresh_counter()
 
     def sub(prefix):
         nsub[0] += 1
+        if reent:
+            return {prefix + "Subscribe": [nsub[0], _beh(rng, nsub[0], fresh)]}
         return {prefix + "Subscribe": [nsub[0], "CbOk" if rng.random() < 0.7 else "CbRaise"]}
 
     # top-level ops: subscribers first (usually), then a mix dominated by reads
     ops = []
-    for _ in range(rng.choice([0, 1, 1, 2, 3])):
+    for _ in range(rng.choice([2, 2, 3, 3, 4]) if reent else rng.choice([0, 1, 1, 2, 3])):
         ops.append(sub("O"))
     n = rng.choice([1, 2, 3, 4, 6, 10]) if not malformed else rng.randrange(3, 14)
     for _ in range(n):
@@ -150,7 +238,7 @@ def gen_susp(rng, malformed):
         phases.append({"mkphase": [rng.choice(["ViaFuture", "ViaBatch"]), _cleanup(rng), inner, dep]})
     r = rng.random()
     fin = {"PRet": [_val(rng)]} if r < 0.6 else {"PRaise": [rng.randrange(1, 60)]} if r < 0.92 else {"PBase": [rng.randrange(60, 90)]}
-    return {"args": ["KSusp", phases, fin, ops], "meta": {"malformed": malformed}}
+    return {"args": ["KSusp", phases, fin, ops], "meta": {"malformed": malformed, "reentrant": reent}}
 
 
 def gen_cases(rng, tier):
@@ -158,6 +246,9 @@ def gen_cases(rng, tier):
     cs = [gen_case(rng, rng.random() < 0.25) for _ in range(n)]
     m = 300 if tier == "quick" else 5000
     cs += [gen_susp(rng, rng.random() < 0.25) for _ in range(m)]
+    # re-entrant subscriber profile (drawn after the older families, whose PRNG stream is unchanged)
+    cs += [gen_reent(rng) for _ in range(250 if tier == "quick" else 6000)]
+    cs += [gen_susp(rng, rng.random() < 0.2, reent=True) for _ in range(200 if tier == "quick" else 5000)]
     for c in cs:
         c["tree"] = c["args"]
     return cs
@@ -190,6 +281,18 @@ CORPUS = [
     _mk("KSusp", [{"mkphase": ["ViaFuture", {"CleanRaiseBase": [341]}, ["IIsComputed", "IValue"], {"Ok": [{"VInt": [2]}]}]},
                   {"mkphase": ["ViaBatch", "CleanOk", [{"ISubscribe": [2, "CbOk"]}], {"Err": [502]}]}],
         {"PRet": ["VNone"]}, [{"OSubscribe": [1, "CbRaise"]}, "OError", "OValue", {"OSetError": [204]}]),
+    # re-entrant subscribers: a one-shot subscriber (unsubscribes itself in its callback) registered before two plain ones;
+    # the second completion (after reset_unsafe) notifies the two that are still registered
+    _mk("KLazy", [{"PRet": [{"VInt": [42]}]}, {"PRaise": [9]}], {"Ok": ["VNone"]},
+        [{"OSubscribe": [1, {"CbUnsub": [1]}]}, {"OSubscribe": [2, "CbOk"]}, {"OSubscribe": [3, "CbRaise"]}, "OValue", "OReset", "OError"]),
+    # set_error completion; 1 subscribes a new subscriber (not called now), 2 drops the already notified 1, 3 the absent 7
+    _mk("KPlain", [], {"Ok": ["VNone"]},
+        [{"OSubscribe": [1, {"CbSub": [101, "CbOk"]}]}, {"OSubscribe": [2, {"CbUnsub": [1]}]}, {"OSubscribe": [3, {"CbSeq": [{"CbUnsub": [7]}, {"CbUnsub": [3]}]}]},
+         {"OSubscribe": [4, "CbOk"]}, {"OSetError": [205]}, "OError", "OReset", {"OSetValue": [{"VInt": [8]}]}, "OValue"]),
+    # task cancelled while suspended: 1 is a one-shot, 2 (subscribed while suspended) drops the not yet notified 3
+    _mk("KSusp", [{"mkphase": ["ViaFuture", {"CleanRaise": [302]}, [{"ISubscribe": [2, {"CbUnsub": [3]}]}, {"ISubscribe": [3, "CbOk"]}, {"ISetError": [402]},
+                                                                     {"ISubscribe": [4, "CbOk"]}], {"Ok": ["VNone"]}]}],
+        {"PRet": [{"VInt": [1]}]}, [{"OSubscribe": [1, {"CbUnsub": [1]}]}, "OError", "OReset", "OValue"]),
 ]
 
 
@@ -221,17 +324,28 @@ def compare(c, m, io):
         return "the implementation did not terminate on this case"
     if c["args"][0] == "KSusp":
         if m != {"OutTask": [io["out"]]}:
-            return "top-level results/inner results/callback log/run count differ between TaskFut.run_task and the implementation"
+            return "top-level results/inner results/callback log/run count/final subscriber list differ between TaskFut.run_task and the implementation"
         return None
     if m != {"OutFut": [io["out"]]}:
-        return "results/callback log/run count differ between Futures.run_case and the implementation"
+        return "results/callback log/run count/final subscriber list differ between Futures.run_case and the implementation"
     return None
 
 
 def distribution(cases):
     d = {"kinds": {}, "oplen": {}, "malformed": 0, "susp_phases": {}, "susp_cleanup": {}, "susp_via": {},
-         "susp_with_inner_set": 0, "susp_inner_set_under_raising_cleanup": 0}
+         "susp_with_inner_set": 0, "susp_inner_set_under_raising_cleanup": 0,
+         "reentrant_profile": 0, "cases_with_reentrant_subscriber": 0, "subscriber_behaviours": {},
+         "unsubscribing_subscriber_followed_by_another": 0}
     for c in cases:
+        d["reentrant_profile"] += 1 if c.get("meta", {}).get("reentrant") else 0
+        behs = _all_subscribes(c)
+        if any(not isinstance(k, str) for _, k in behs):
+            d["cases_with_reentrant_subscriber"] += 1
+        for sid, k in behs:
+            for b in _beh_classes(sid, k):
+                d["subscriber_behaviours"][b] = d["subscriber_behaviours"].get(b, 0) + 1
+        if any(not isinstance(k, str) and any(b.startswith("unsub") for b in _beh_classes(sid, k)) for sid, k in behs[:-1]):
+            d["unsubscribing_subscriber_followed_by_another"] += 1
         if c["args"][0] == "KSusp":
             ph = c["args"][1]
             d["susp_phases"][str(len(ph))] = d["susp_phases"].get(str(len(ph)), 0) + 1
@@ -256,6 +370,28 @@ def distribution(cases):
 
 def _opname(o):
     return o if isinstance(o, str) else next(iter(o))
+
+
+def _all_subscribes(c):
+    """(id, behaviour) of every subscribe operation of the case, top-level and inner, in textual order."""
+    out = []
+    if c["args"][0] == "KSusp":
+        for p in c["args"][1]:
+            out += [o["ISubscribe"] for o in p["mkphase"][2] if isinstance(o, dict) and "ISubscribe" in o]
+    top = [o["OSubscribe"] for o in c["args"][3] if isinstance(o, dict) and "OSubscribe" in o]
+    return [(a[0], a[1]) for a in top + out]
+
+
+def _beh_classes(sid, k):
+    if isinstance(k, str):
+        return ["plain" if k == "CbOk" else "raises"]
+    (name, a), = k.items()
+    if name == "CbUnsub":
+        t = a[0]
+        return ["unsub-self" if t == sid else "unsub-next" if t == sid + 1 else "unsub-previous" if t == sid - 1 else "unsub-other"]
+    if name == "CbSub":
+        return ["subscribes"]
+    return ["seq"] + _beh_classes(sid, a[0]) + _beh_classes(sid, a[1])
 
 
 E_SKIPPED = -20
@@ -362,6 +498,36 @@ class _Epoch:
         return fs
 
 
+def _notify_check(label, outcome, registered, new, events, lo, hi, where):
+    """Clause (d) for ONE completion: `registered` = the subscribers registered when the completion began
+    (the harness's record of the subscribe/unsubscribe calls that returned normally), `new` = the callback
+    records produced meanwhile.  Every registered subscriber has to be called exactly once and has to see
+    the outcome - also when subscribers unsubscribe (themselves or others) or subscribe new ones from
+    inside their callbacks; nobody else is called.  The site says what the called subscribers did to the
+    subscription list during this notification (observed), and what went wrong."""
+    want = [{"": [sid, outcome]} for sid in registered]
+    if new == want:
+        return []
+    acts = sorted({e["act"] for e in events if lo <= e["nlog"] < hi})
+    called = [r[""][0] for r in new]
+    missed = [sid for sid in registered if sid not in called]
+    twice = sorted({sid for sid in called if called.count(sid) > registered.count(sid) and sid in registered})
+    extra = sorted({sid for sid in called if sid not in registered})
+    stale = [r for r in new if r[""][1] != outcome]
+    what = "+".join((["missed"] if missed else []) + (["too-often"] if twice else []) + (["unregistered"] if extra else []) +
+                    (["outcome-not-visible"] if stale else [])) or "order"
+    site = "%s:callbacks" % label
+    if acts:
+        site += ":during-" + "+".join(acts) + ":" + what
+    return [dict(clause="notify-once-after", site=site,
+                 msg="completion with %s notified %s, expected exactly %s - the subscribers registered when it began (%s)%s%s%s" % (
+                     outcome, new, want, where,
+                     "; never notified: %s" % missed if missed else "",
+                     "; called more often than registered: %s" % twice if twice else "",
+                     "; subscribers changed the subscription list meanwhile: %s" % [
+                         (e["by"], e["act"], e["target"], e["ok"]) for e in events if lo <= e["nlog"] < hi] if acts else ""))]
+
+
 def _susp_monitors(c, io):
     """Scheduled task: the observation points taken before / after every operation (top-level or
     issued while the task is suspended) cut the history into segments; each segment is either one
@@ -369,6 +535,7 @@ def _susp_monitors(c, io):
     _, phases, fin, ops = c["args"]
     pts = io["points"]
     log = io["out"][""][2]
+    events = io.get("events", [])
     fs = []
     # (a)-(c) per operation
     open_top = None
@@ -420,10 +587,7 @@ def _susp_monitors(c, io):
                                msg="outcome of the computed task changed from %s to %s in %s" % (p["st"], q["st"], where)))
         new = log[p["nlog"]:q["nlog"]]
         if p["st"] is None and q["st"] is not None:
-            want = [{"": [sid, q["st"]]} for sid in p["subs"]]
-            if new != want:
-                fs.append(dict(clause="notify-once-after", site=label + ":callbacks",
-                               msg="completion with %s notified %s, expected exactly %s (%s)" % (q["st"], new, want, where)))
+            fs += _notify_check(label, q["st"], p["subs"], new, events, p["nlog"], q["nlog"], where)
         elif new:
             fs.append(dict(clause="notify-once-after", site=label + ":spurious-callback",
                            msg="callbacks %s fired although the task was not completed there (%s)" % (new, where)))
@@ -437,10 +601,10 @@ def monitors(c, io, build):
     if c["args"][0] == "KSusp":
         return _susp_monitors(c, io)
     kind, prov, o0, ops = c["args"]
-    res, log, runs = io["out"][""]
+    res, log, runs, _final = io["out"][""]
+    events = io.get("events", [])
     fs = []
     nlog_prev = 0
-    subs = []
     ep = _Epoch(kind, o0 if kind in ("KConst", "KError") else None)
     for i, (o, r, ob) in enumerate(zip(ops, res, io["obs"])):
         name = _opname(o)
@@ -449,18 +613,13 @@ def monitors(c, io, build):
         fs += ep.op(name, _arg(o), r, pre, post, ob.get("prov", []), "op %d" % i)
         # (d) every subscriber notified exactly once per completion, after the outcome is visible
         new = log[nlog_prev:ob["nlog"]]
-        nlog_prev = ob["nlog"]
         completed = pre is None and post is not None
         if completed and kind not in ("KConst", "KError"):
-            want = [{"": [sid, post]} for sid in subs]
-            if new != want:
-                fs.append(dict(clause="notify-once-after", site="%s:%s:callbacks" % (kind, name),
-                               msg="completion by %s notified %s, expected exactly %s (op %d)" % (name, new, want, i)))
+            fs += _notify_check("%s:%s" % (kind, name), post, ob["subs"], new, events, nlog_prev, ob["nlog"], "op %d" % i)
         elif new:
             fs.append(dict(clause="notify-once-after", site="%s:%s:spurious-callback" % (kind, name),
                            msg="callbacks %s fired although op %d (%s) did not complete the future" % (new, i, name)))
-        if name == "OSubscribe" and kind not in ("KConst", "KError"):
-            subs.append(o["OSubscribe"][0])
+        nlog_prev = ob["nlog"]
     # (e) ConstFuture / ErrorFuture complete from construction
     if kind in ("KConst", "KError") and io["obs"] and "OReset" not in [_opname(o) for o in ops]:
         if io["obs"][0]["pre"] != o0:
@@ -473,10 +632,37 @@ def _case(a):
     return {"args": a, "tree": a, "meta": {"shrunk": True}}
 
 
+def _simpler(k):
+    """Simpler behaviour scripts than k."""
+    if isinstance(k, str):
+        return
+    yield "CbOk"
+    (name, a), = k.items()
+    if name == "CbSeq":
+        yield a[0]
+        yield a[1]
+        for x in _simpler(a[0]):
+            yield {"CbSeq": [x, a[1]]}
+        for x in _simpler(a[1]):
+            yield {"CbSeq": [a[0], x]}
+    elif name == "CbSub" and a[1] != "CbOk":
+        yield {"CbSub": [a[0], "CbOk"]}
+
+
+def _simpler_subscribes(ops, prefix):
+    for i, o in enumerate(ops):
+        if isinstance(o, dict) and prefix + "Subscribe" in o:
+            sid, k = o[prefix + "Subscribe"]
+            for k2 in _simpler(k):
+                yield ops[:i] + [{prefix + "Subscribe": [sid, k2]}] + ops[i + 1:]
+
+
 def shrink(c):
     kind, prov, o0, ops = c["args"]
     for i in range(len(ops)):
         yield _case([kind, prov, o0, ops[:i] + ops[i + 1:]])
+    for ops2 in _simpler_subscribes(ops, "O"):
+        yield _case([kind, prov, o0, ops2])
     if kind == "KSusp":
         phases = prov
         for i in range(len(phases)):
@@ -487,6 +673,9 @@ def shrink(c):
                 yield _case([kind, phases[:i] + [ph] + phases[i + 1:], o0, ops])
             if via != "ViaFuture":
                 ph = {"mkphase": ["ViaFuture", clean, inner, dep]}
+                yield _case([kind, phases[:i] + [ph] + phases[i + 1:], o0, ops])
+            for inner2 in _simpler_subscribes(inner, "I"):
+                ph = {"mkphase": [via, clean, inner2, dep]}
                 yield _case([kind, phases[:i] + [ph] + phases[i + 1:], o0, ops])
         return
     if len(prov) > 1:
